@@ -116,20 +116,21 @@ def run(facts, tier):
     f = facts.fn("xe::append_child_to_tree")
     want = {"Element": "create_element", "Text": "create_text_node", "CData": "create_cdata_section", "Comment": "create_comment",
             "PI": "create_processing_instruction", "EntityReference": "create_entity_reference", "Attribute": "create_attribute"}
-    from props.c08 import variants_of_pat
-    for n in walk(f["body"]):
-        if n.get("k") == "Match" and n.get("src") == "Normal" and "XmlNode" in str(n.get("scrutty", "")):
-            for arm in n["arms"]:
-                for v in variants_of_pat(arm["pat"]):
-                    if v not in want:
-                        continue
-                    st6["instances"] += 1
-                    made = sorted({m["m"] for m in walk(arm["body"]) if m.get("k") == "MethodCall" and str(m["m"]).startswith("create_")})
-                    ok = made == [want[v]]
-                    res.oblige(1, ok)
-                    if not ok:
-                        res.add(Finding("C17-6", "append_child_to_tree|" + v, "xe rebuilds a %s node of the replacement with %s (expected %s): the "
-                                        "children of the selected element are not the parsed replacement" % (v, made, want[v]), f["file"], arm.get("ln"), {}))
+    # enumflow over the kinds of XmlNode: which factory is reached for which kind of node, through nested or split matches and
+    # through helpers that are handed the node
+    import xpdispatch
+    seen, nuses = xpdispatch.table(facts, f, "xml_dom::XmlNode", lambda nm: str(nm).split("::")[-1].startswith("create_"), "C17-6",
+                                   exact_type="xml_dom::XmlNode")
+    for v in sorted(want):
+        made = sorted({str(x).split("::")[-1] for x in seen.get(v, ())})
+        if not made:
+            continue                 # a kind the tool does not rebuild (refused with an error)
+        st6["instances"] += 1
+        ok = made == [want[v]]
+        res.oblige(1, ok)
+        if not ok:
+            res.add(Finding("C17-6", "append_child_to_tree|" + v, "xe rebuilds a %s node of the replacement with %s (expected %s): the "
+                            "children of the selected element are not the parsed replacement" % (v, made, want[v]), f["file"], f["line"], {}))
     if st6["instances"] < 3:
         raise BrokenCheck("C17-6: %d node kinds rebuilt in append_child_to_tree (floor 3)" % st6["instances"])
     # ---- C17-8: xq prints the selection in document order, each node once (typestate of C07); its compact output is the
